@@ -29,6 +29,8 @@ class Spec(MQSpec):
         ratio = ch.pick('gen', [3, 0.3, 1, 8])
         t_ms = max(400, int(interval * ratio * 1000))
         sc['lineage'] = {'interval_s': interval}
+        if self.tier == 'thorough' and ch.chance('gen', 1, 3):
+            sc['lineage']['line_preempt'] = True       # line-granularity interleaving inside lineage.py
         sc['t_cause_ms'] = t_ms
         x = sc['x']
         spec = sc['nodes'][x]
